@@ -351,6 +351,17 @@ case E: (Gauss.det_piv G) => [q|]; first by exists q.
 by have [k kn /eqP Hk] := det_piv_None wf E; have := H k kn; rewrite Hk.
 Qed.
 
+(* summaries for Properties/C08Mx.v *)
+Theorem det_piv_facts n G : wf_mat n n G ->
+  (forall q, Gauss.det_piv G = Some q -> \det (mx_of_mat n n G) = Qrat q) /\
+  (forall ps, Gauss.pivots n G = Some ps -> forall k, (k <= n)%N -> \det (mx_of_mat k k G) = Qrat (Gauss.qprod (take k ps))).
+Proof. by move=> wf; split=> [q|ps Hps]; [exact: det_piv_det|have [] := pivots_lpm wf Hps]. Qed.
+
+Theorem det_piv_defined_facts n G : wf_mat n n G ->
+  ((exists q, Gauss.det_piv G = Some q) <-> (forall k, (k < n)%N -> \det (mx_of_mat k.+1 k.+1 G) != 0)) /\
+  (Gauss.det_piv G = None -> exists2 k, (k < n)%N & \det (mx_of_mat k.+1 k.+1 G) = 0).
+Proof. by move=> wf; split; [exact: det_piv_SomeP|exact: det_piv_None]. Qed.
+
 (* the two determinant functions of the models agree on integer matrices *)
 Theorem det_piv_zdet n (M : seq (seq Z)) q : wf_mat n n M ->
   Gauss.det_piv (map (map inject_Z) M) = Some q -> Qeq q (inject_Z (GeoRank.zdet n M)).
